@@ -48,9 +48,20 @@ def small_multiple_boundaries(p):
     return [v % p for v in out]
 
 
-def fixed_values(p):
+def core_fixed_values(p):
     return [0, 1, 2, 3, p - 1, p - 2, (p - 1) // 2, (p + 1) // 2, 1 << 255, (1 << 255) - 1, R % p, (R - 1) % p, (-R) % p,
-            (R * R) % p, pow(R, -1, p), (1 << 64) - 1, 1 << 64, (1 << 128) - 1, 1 << 192, R - p, (R - p) - 1, (R - p) + 1] + small_multiple_boundaries(p)
+            (R * R) % p, pow(R, -1, p), (1 << 64) - 1, 1 << 64, (1 << 128) - 1, 1 << 192, R - p, (R - p) - 1, (R - p) + 1]
+
+
+def fixed_values(p):
+    return core_fixed_values(p) + small_multiple_boundaries(p)
+
+
+def pick_fixed(rng, p):
+    """half of the draws from the short core list (0, 1, 2, p-1, R mod p ...), half from the extended list, so that extending the
+    list does not dilute the most important values"""
+    fv = core_fixed_values(p) if rng.random() < 0.5 else fixed_values(p)
+    return fv[rng.randrange(len(fv))] % p
 
 
 def field_value(rng, p):
@@ -58,11 +69,9 @@ def field_value(rng, p):
     fixed boundary values, near-modulus values and uniform ones"""
     k = rng.randrange(10)
     if k == 0:
-        fv = fixed_values(p)
-        return fv[rng.randrange(len(fv))] % p, 'fixed'
+        return pick_fixed(rng, p), 'fixed'
     if k == 1:
-        fv = fixed_values(p)
-        return rm.unmont(fv[rng.randrange(len(fv))] % p, p), 'fixed-mont'
+        return rm.unmont(pick_fixed(rng, p), p), 'fixed-mont'
     if k in (2, 3):
         return limb_value(rng, p) % p, 'limbs'
     if k in (4, 5):
@@ -382,6 +391,8 @@ def scalar(rng):
         return rng.randrange(1 << rng.randrange(1, 64)), 'small'
     if c == 7:
         # Montgomery-targeted: the stored representative (not the value) has boundary limbs, e.g. representative 1, 2^64, r-1
+        if rng.random() < 0.5:
+            return rm.unmont(pick_fixed(rng, r), r), 'mont'
         return field_value(rng, r)[0], 'mont'
     if c == 8:
         # repeating bit patterns (maximal signed-digit weight, alternating runs) and their neighbours
